@@ -37,11 +37,14 @@ type c01Spec struct {
 	CtlDelayMaxMs int        `json:"ctl_delay_max_ms"`
 }
 
-var c01Costs = []float64{0.5, 1, 2, 3, 7}
+var c01Costs = []float64{0.5, 1, 2, 3, 7, 10, 4, 6}
 
 func genC01(rng *rand.Rand, trial int) *c01Spec {
 	sp := &c01Spec{Trial: trial}
 	n := 2 + rng.Intn(8)
+	if trial%4 == 1 {
+		n = 6 + rng.Intn(4)
+	}
 	for i := 0; i < n; i++ {
 		sp.Nodes = append(sp.Nodes, fmt.Sprintf("n%d", i))
 	}
@@ -70,6 +73,11 @@ func genC01(rng *rand.Rand, trial int) *c01Spec {
 		add(sp.Nodes[i], sp.Nodes[lo+rng.Intn(i-lo)])
 	}
 	extra := rng.Intn(n)
+	dense := trial%4 == 1
+	if dense {
+		// dense weighted graphs with many competing paths of different cost orders (no partition)
+		extra = n + rng.Intn(2*n)
+	}
 	for k := 0; k < extra; k++ {
 		a, b := rng.Intn(n), rng.Intn(n)
 		if split < n && (a < split) != (b < split) {
@@ -82,6 +90,9 @@ func genC01(rng *rand.Rand, trial int) *c01Spec {
 	ne := rng.Intn(13)
 	if trial%7 == 0 {
 		ne = 0
+	}
+	if dense {
+		ne = rng.Intn(3) // mostly the topology itself is the subject
 	}
 	type lstate struct{ up, silent bool }
 	ls := map[string]*lstate{}
